@@ -36,7 +36,7 @@ using F3 = covfie::field<cb::affine<cb::nearest_neighbour<cb::strided<cv::size2,
 using F4 = covfie::field<cb::strided<cv::size1, cb::array<cv::double1>>>;
 constexpr int NTYPES = 5;
 static const char * tname[NTYPES] = {"strided", "morton", "hilbert", "affine<nn<strided>>", "strided1d<double>"};
-static const unsigned EXT[3][2] = {{2, 3}, {5, 2}, {4, 3}};  // padded curve sides 4, 8, 4
+static const unsigned EXT[4][2] = {{2, 3}, {5, 2}, {3, 0}, {4, 3}};  // padded curve sides 4, 8, 4, 4; the third has no cells at all
 
 template <int T>
 struct type_of;
@@ -178,7 +178,7 @@ struct Pool {
         const Model & d = m[o.dst];
         switch (o.k) {
         case CONSTRUCT: return d.state == 0;
-        case WRITE: return d.state == 1;
+        case WRITE: return d.state == 1 && d.ex * d.ey > 0;
         case DESTROY: return d.state != 0;
         case COPY_CONSTRUCT:
         case MOVE_CONSTRUCT:
@@ -385,7 +385,7 @@ static std::vector<Op> alphabet(int ta, int tb)
     std::vector<Op> a;
     for (int s = 0; s < 2; ++s) {
         for (int t : {ta, tb})
-            for (int e = 0; e < 2; ++e) a.push_back({CONSTRUCT, s, -1, t, e, 0});
+            for (int e = 0; e < 3; ++e) a.push_back({CONSTRUCT, s, -1, t, e, 0});
         for (int c = 0; c < 2; ++c) a.push_back({WRITE, s, -1, -1, 0, c});
         a.push_back({DESTROY, s, -1, -1, 0, 0});
         for (int r = 0; r < 2; ++r) {
@@ -441,7 +441,7 @@ static void random_histories(vh::Rng & rng, unsigned count, unsigned len)
         for (unsigned i = 0; i < len && !failed; ++i) {
             Op o;
             for (int tries = 0; tries < 50; ++tries) {
-                o = Op{(Kind)rng.below(NKINDS), (int)rng.below(4), (int)rng.below(4), (int)rng.below(NTYPES), (int)rng.below(3), (int)rng.below(12)};
+                o = Op{(Kind)rng.below(NKINDS), (int)rng.below(4), (int)rng.below(4), (int)rng.below(NTYPES), (int)rng.below(4), (int)rng.below(12)};
                 if (o.k == WRITE && rng.below(3)) o.cellsel = (int)rng.below(2);
                 if (o.k == DESTROY && rng.below(3)) continue;  // keep the pool populated
                 if (p.enabled(o)) break;
